@@ -30,7 +30,7 @@ def required(tier):
     b.update({f'bp:{k}': 2 for k in work_sig.BP_KINDS})
     b.update({f'bound:{k}': 2 for k in set(work_sig.BOUND_KINDS)})
     b.update({'bounding-range-form:' + k: 30 for k in ('plain-tuple', 'Hz', 'kHz', 'MHz', 'GHz-list', 'plain-list')})
-    b.update({'df:negative-argument': 50, 'orient:asc': 10, 'orient:desc': 10, 'array-path-with-smearing': 2, 'validation-probe': 10,
+    b.update({'df:negative-argument': 50, 'geometry:python-integers': 30, 'orient:asc': 10, 'orient:desc': 10, 'array-path-with-smearing': 2, 'validation-probe': 10,
               'bp-array:restricted-grid-length-equals-fchans': 10})
     return {'buckets': b, 'counters': {'pixels_compared': 10000, 'add_signal_calls': 100}, 'checks': 300, 'nontrivial': 50}
 
@@ -68,8 +68,10 @@ def gen_cases(seed, tier):
 
 def make_frame(stg, g, seed=None, **kw):
     # a negative channel width (the filterbank 'foff' sign convention) is accepted and describes the same grid as its absolute value
-    return stg.Frame(fchans=g['fchans'], tchans=g['tchans'], df=-g['df'] if g.get('neg_df') else g['df'], dt=g['dt'], fch1=g['fch1'],
-                     ascending=g['asc'], seed=seed, t_start=1.7e9, **kw)
+    df_, dt_, f1_ = (-g['df'] if g.get('neg_df') else g['df']), g['dt'], g['fch1']
+    if g.get('int_geom'):
+        df_, dt_, f1_ = int(df_), int(dt_), int(f1_)
+    return stg.Frame(fchans=g['fchans'], tchans=g['tchans'], df=df_, dt=dt_, fch1=f1_, ascending=g['asc'], seed=seed, t_start=1.7e9, **kw)
 
 
 def call_add_signal(fr, stg, spec, opts, brange, ref, lo, hi, R=None):
@@ -144,6 +146,8 @@ def run_case(c, R):
     R.bucket('orient:asc' if g['asc'] else 'orient:desc')
     if g.get('neg_df'):
         R.bucket('df:negative-argument')
+    if g.get('int_geom'):
+        R.bucket('geometry:python-integers')
     if spec['path']['form'] in ('array', 'list') and opts['doppler_smearing']:
         R.bucket('array-path-with-smearing')
     if spec['bp']['kind'] == 'array' and (hi - lo) < fr.fchans and (hi - lo) * (opts['f_subsamples'] if opts['integrate_f_profile'] else 1) == fr.fchans:
